@@ -109,6 +109,131 @@ theorem interleaving_is_sequential (s : σ) (tr : List (MEv σ)) (h : Discipline
   have := atomic_aux tr s none none h rfl
   simpa using this
 
+/-! ### order: program order of each connection and real-time precedence between connections -/
+
+/-- the threads in the order in which they acquired the lock -/
+def acquisitions : List (MEv σ) → List Nat
+  | [] => []
+  | .acq t :: r => t :: acquisitions r
+  | _ :: r => acquisitions r
+
+/-- the sequential order of `interleaving_is_sequential` is the order of the lock acquisitions: one command per
+    acquisition, by the acquiring thread. A connection sends its next command after the reply to the previous one,
+    so the commands of one connection appear in the order it issued them. -/
+theorem order_is_acquisition_order : ∀ (tr : List (MEv σ)) (h : Option Nat) (cur : Option (Nat × (σ → σ))),
+    Disciplined h tr →
+    (match cur with | some (t, _) => h = some t | none => h = none) →
+    (commandsOf cur tr).map (·.1) = (match cur with | some (t, _) => [t] | none => []) ++ acquisitions tr := by
+  intro tr
+  induction tr with
+  | nil => intro h cur _ _; cases cur <;> simp [commandsOf, acquisitions]
+  | cons e r ih =>
+    intro h cur hd hc
+    cases e with
+    | acq t =>
+      simp only [Disciplined] at hd
+      cases cur with
+      | some c => obtain ⟨t', g⟩ := c; simp only at hc; rw [hd.1] at hc; cases hc
+      | none =>
+        simp only [commandsOf, acquisitions]
+        have := ih (some t) (some (t, id)) hd.2 rfl
+        simpa using this
+    | rel t =>
+      simp only [Disciplined] at hd
+      cases cur with
+      | none => simp only at hc; rw [hd.1] at hc; cases hc
+      | some c =>
+        obtain ⟨t', g⟩ := c
+        simp only [commandsOf, acquisitions, List.map_append]
+        have := ih none none hd.2 rfl
+        simpa using this
+    | op t f =>
+      simp only [Disciplined] at hd
+      cases cur with
+      | none => simp only at hc; rw [hd.1] at hc; cases hc
+      | some c =>
+        obtain ⟨t', g⟩ := c
+        simp only at hc
+        have htt : t = t' := by rw [hd.1] at hc; exact Option.some.inj hc
+        subst htt
+        simp only [commandsOf, ↓reduceIte, acquisitions]
+        have := ih h (some (t, f ∘ g)) hd.2 hc
+        simpa using this
+
+theorem commands_in_acquisition_order (tr : List (MEv σ)) (h : Disciplined none tr) :
+    (commandsOf none tr).map (·.1) = acquisitions tr := by
+  have := order_is_acquisition_order tr none none h rfl
+  simpa using this
+
+/-- who holds the lock after a trace -/
+def lockAfter : Option Nat → List (MEv σ) → Option Nat
+  | h, [] => h
+  | _, .acq t :: r => lockAfter (some t) r
+  | _, .rel _ :: r => lockAfter none r
+  | h, .op _ _ :: r => lockAfter h r
+
+/-- **Real-time precedence.** When the lock is free at some point of the trace (every command that began before
+    that point has released), the sequential order puts every command of the first part before every command
+    of the second part: a command that completed before another began is ordered before it. -/
+theorem completed_commands_come_first : ∀ (a b : List (MEv σ)) (h : Option Nat) (cur : Option (Nat × (σ → σ))),
+    Disciplined h a →
+    (match cur with | some (t, _) => h = some t | none => h = none) →
+    lockAfter h a = none →
+    commandsOf cur (a ++ b) = commandsOf cur a ++ commandsOf none b := by
+  intro a
+  induction a with
+  | nil =>
+    intro b h cur _ hc hh
+    simp only [lockAfter] at hh
+    subst hh
+    cases cur with
+    | none => simp [commandsOf]
+    | some c => obtain ⟨t, g⟩ := c; simp at hc
+  | cons e r ih =>
+    intro b h cur hd hc hh
+    cases e with
+    | acq t =>
+      simp only [Disciplined] at hd
+      simp only [lockAfter] at hh
+      simp only [List.cons_append, commandsOf]
+      exact ih b (some t) (some (t, id)) hd.2 rfl hh
+    | rel t =>
+      simp only [Disciplined] at hd
+      simp only [lockAfter] at hh
+      simp only [List.cons_append, commandsOf, List.append_assoc]
+      rw [ih b none none hd.2 rfl hh]
+    | op t f =>
+      simp only [Disciplined] at hd
+      simp only [lockAfter] at hh
+      cases cur with
+      | none => simp only at hc; rw [hd.1] at hc; cases hc
+      | some c =>
+        obtain ⟨t', g⟩ := c
+        simp only at hc
+        have htt : t = t' := by rw [hd.1] at hc; exact Option.some.inj hc
+        subst htt
+        simp only [List.cons_append, commandsOf, ↓reduceIte]
+        exact ih b h (some (t, f ∘ g)) hd.2 hc hh
+
+theorem real_time_precedence (a b : List (MEv σ)) (hd : Disciplined none a) (hfree : lockAfter none a = none) :
+    commandsOf none (a ++ b) = commandsOf none a ++ commandsOf none b :=
+  completed_commands_come_first a b none none hd rfl hfree
+
+/-- **Replies.** A reply is computed by a micro-step from the state it sees; with the replies logged in the shared
+    state (`σ = S × log`), `interleaving_is_sequential` says the log — every reply every client received, in order —
+    is the log of the sequential execution. -/
+theorem replies_are_sequential {S ρ : Type} (s : S) (tr : List (MEv (S × List (Nat × ρ)))) (h : Disciplined none tr) :
+    (execTrace (s, []) tr).2 = (execCommands (s, []) (commandsOf none tr)).2 := by
+  rw [interleaving_is_sequential (s, []) tr h]
+
+/-- non-vacuity: two threads, thread 1 adds 1 and doubles under the lock, thread 2 adds 10 in between the sections;
+    the trace is disciplined, the lock is free after the first section, and the order is 1, 2 -/
+theorem precedence_example :
+    let a : List (MEv Nat) := [.acq 1, .op 1 (· + 1), .op 1 (· * 2), .rel 1]
+    let b : List (MEv Nat) := [.acq 2, .op 2 (· + 10), .rel 2]
+    Disciplined none (a ++ b) ∧ lockAfter none a = none ∧ acquisitions (a ++ b) = [1, 2] ∧ execTrace 0 (a ++ b) = 12 := by
+  simp [Disciplined, lockAfter, acquisitions, execTrace]
+
 /-! ### the premise of `interleaving_is_sequential` on the code: the regenerated locking facts
 
 See `data_layer_lock_discipline` in C16: every function that touches a database takes its lock before
